@@ -794,6 +794,20 @@ func (e *lenEng) callResultField(call *ssa.Call, idx, fld int, at *ssa.BasicBloc
 			}
 		}
 		if !replaced {
+			// an accessor of a parameter: the same accessor of the argument
+			for i, p := range callee.Params {
+				pk := "(" + e.key(p, 0) + ")"
+				if strings.Contains(k, pk) && i < len(call.Call.Args) {
+					nk := strings.ReplaceAll(k, pk, "("+e.key(call.Call.Args[i], 0)+")")
+					if !strings.Contains(nk, "(v:") {
+						out.t[nk] += coef
+						replaced = true
+					}
+					break
+				}
+			}
+		}
+		if !replaced {
 			if strings.HasPrefix(k, "v:") || strings.Contains(k, "(v:") || strings.HasPrefix(k, "p:") || strings.Contains(k, "(p:") {
 				// an atom local to the callee: nothing is known about it here
 				if coef < 0 {
@@ -814,6 +828,11 @@ func errTestedBefore(call *ssa.Call, errIdx int, at *ssa.BasicBlock) bool {
 		ex, ok := ref.(*ssa.Extract)
 		if !ok || ex.Index != errIdx {
 			continue
+		}
+		// handed on: the block returns this very error as the function's own (return f(x)),
+		// so whoever uses the function's result has tested it
+		if ret, ok := at.Instrs[len(at.Instrs)-1].(*ssa.Return); ok && len(ret.Results) > 0 && ret.Results[len(ret.Results)-1] == ssa.Value(ex) {
+			return true
 		}
 		for _, r2 := range *ex.Referrers() {
 			bo, ok := r2.(*ssa.BinOp)
